@@ -558,10 +558,10 @@ func TestC20(t *testing.T) {
 	r.Assume("go/scanner token stream of a NoFormat File render is taken as 'the rendering' of a statement")
 	maxOps := 60
 	if r.Thorough() {
-		maxOps = 150
+		maxOps = 120
 	}
 	ck := hx.Check[Case]{Name: "history", Fn: check}
-	hx.Rapid(r, t, ck, r.N(1500, 2500), func(rt *rapid.T) Case {
+	hx.Rapid(r, t, ck, r.N(1500, 1200), func(rt *rapid.T) Case {
 		c := genCase(maxOps)(rt)
 		classify(r, c)
 		return c
